@@ -15,6 +15,7 @@ import (
 	"github.com/elnosh/gonuts/cashu/nuts/nut20"
 
 	"verif/harness/lnmodel"
+	"verif/harness/sched"
 	"verif/harness/world"
 )
 
@@ -235,19 +236,14 @@ func (w *W) quoteStateExpect(q *TQuote, got nut04.State, where string) {
 
 func (w *W) opFire(qi int) error {
 	q := w.Quotes[qi]
-	// drain stale notifications
-	for len(w.watcherCh) > 0 {
-		<-w.watcherCh
-	}
-	n := w.LN.Deliver(q.Q.PaymentHash)
+	g := w.LN.DeliverGIDs(q.Q.PaymentHash)
 	q.Fired = true
-	if n == 0 {
+	if len(g) == 0 {
 		return nil // no live watcher (mint restarted since) or invoice not settled: nothing happens
 	}
-	select {
-	case <-w.watcherCh:
-	case <-time.After(20 * time.Second):
-		return fmt.Errorf("harness: watcher did not write after delivery")
+	// the watcher goroutine handles the notification (store reads / writes) and exits
+	if !sched.WaitGone(g, 20*time.Second) {
+		return fmt.Errorf("harness: watcher goroutine did not finish after delivery")
 	}
 	return nil
 }
@@ -367,7 +363,8 @@ func (w *W) opMint(op string, qi int, variant string) error {
 		q.Successes++
 		q.Issued += sum
 		w.recordSigs(op, outs, sigs)
-	} else if honest && paid && q.Successes < q.Payments && !alreadySigned && sigOK {
+	} else if honest && paid && q.Successes == 0 && !alreadySigned && sigOK {
+		// (a second payment of an already issued quote is the payer's loss; the statement does not demand a second issuance)
 		w.viol("C06,C03", "honest-mint-refused", "MintTokens(q%d,%s) refused (%v) although the quote is paid and not issued", qi, variant, err)
 	}
 	return nil
